@@ -353,6 +353,8 @@ static std::string doOp(const std::string& op) {
   }
   if (cmd == "prog") {
     Context& c = *K(1).ctx; StringReader reader(hexdec(a.at(2)));
+    /* a well-behaved host resets the stop condition held after a `return` (bloc_reset_stop) */
+    c.returnCondition(false);
     Executable* x = nullptr;
     try { x = Parser::parse(c, reader); } catch (ParseError& pe) { return perr(pe); }
     std::string r = runExec(x, nullptr);
